@@ -72,7 +72,7 @@ func execHistory(c tcase) hx.Result {
 	stricts := make([]string, n)
 	bad := false
 	for i := 0; i < n; i++ {
-		d, what := makeSource(c.srcs[i])
+		d, what := makeSource(c.srcs[i], c.cons+i)
 		if d == nil {
 			projs[i] = what
 			bad = true
@@ -82,8 +82,14 @@ func execHistory(c tcase) hx.Result {
 			continue
 		}
 		slots[i], content[i] = d, i
-		exp[i] = observe(d, c.blank, c.pats)
-		wf[i] = wfString(d)
+		// expectations from a twin: the slot itself is untouched until the program reaches it
+		// (so a program can encode an automaton that has never been searched)
+		twin, _ := makeSource(c.srcs[i], c.cons+i)
+		if twin == nil {
+			twin = d
+		}
+		exp[i] = c.obs(twin)
+		wf[i] = wfString(twin)
 	}
 	if bad {
 		for i := range projs {
@@ -115,7 +121,7 @@ func execHistory(c tcase) hx.Result {
 		if content[o] < 0 {
 			return
 		}
-		if got := observe(slots[o], c.blank, c.pats); got != exp[content[o]] {
+		if got := c.obs(slots[o]); got != exp[content[o]] {
 			fail("C14:history-object-differs", "step %d (%s): slot %d should behave as source %d: expected %s got %s", step, where, o, content[o], short(exp[content[o]], 300), short(got, 300))
 		}
 	}
@@ -131,7 +137,7 @@ func execHistory(c tcase) hx.Result {
 			fail("C14:history-held-decode-error", "step %d (%s): the encoding held since step %d no longer decodes: %v", step, where, h.step, err)
 			return
 		}
-		if got := observe(d, c.blank, c.pats); got != exp[h.c] {
+		if got := c.obs(d); got != exp[h.c] {
 			fail("C14:history-held-differs", "step %d (%s): the encoding of source %d held since step %d now decodes to another automaton: expected %s got %s", step, where, h.c, h.step, short(exp[h.c], 300), short(got, 300))
 			return
 		}
@@ -149,7 +155,7 @@ func execHistory(c tcase) hx.Result {
 			checkSlot(o, where)
 		}
 		for _, e := range extras {
-			if got := observe(e.d, c.blank, c.pats); got != exp[e.c] {
+			if got := c.obs(e.d); got != exp[e.c] {
 				fail("C14:history-object-differs", "step %d (%s): an automaton decoded from a shared gob stream should behave as source %d: expected %s got %s", step, where, e.c, short(exp[e.c], 300), short(got, 300))
 			}
 		}
@@ -308,17 +314,37 @@ func execHistory(c tcase) hx.Result {
 	scribble(scratch, len(c.prog))
 	checkAll("end", true)
 
+	// the caller owns the slices GobEncode returned: overwrite all of them (after taking the
+	// copies the per-source lines below need), then every slot must still encode canonically
+	firstHeld := make([][]byte, n)
+	for _, h := range helds {
+		if !h.framed && firstHeld[h.c] == nil {
+			firstHeld[h.c] = append([]byte{}, h.b...)
+		}
+	}
+	for k, h := range helds {
+		if !h.framed {
+			scribble(h.b, k)
+		}
+	}
+	step++
+	for o := range slots {
+		if content[o] < 0 {
+			continue
+		}
+		if b, err := slots[o].GobEncode(); err != nil {
+			fail("C14:encode-error", "GobEncode: %v", err)
+		} else {
+			noteCanon(content[o], b, "after the held encodings were overwritten by the caller")
+			scribble(b, o)
+		}
+	}
+
 	// per source: the plain observation, from the first direct encoding the program held
 	for i := 0; i < n; i++ {
-		var b []byte
-		for _, h := range helds {
-			if !h.framed && h.c == i {
-				b = h.b
-				break
-			}
-		}
+		b := firstHeld[i]
 		if b == nil {
-			d, _ := makeSource(c.srcs[i])
+			d, _ := makeSource(c.srcs[i], c.cons+i)
 			if d != nil {
 				b, _ = d.GobEncode()
 			}
